@@ -105,7 +105,9 @@ func (ym YamlMap) GetValue(key string) *YamlNode {
 func (ym *YamlMap) setValue(item *YamlKeyValue) {
 	for i := range ym.Items {
 		if ym.Items[i].Key.Value == item.Key.Value {
-			ym.Items[i].Value = item.Value
+			// Items holds pointers that can be shared with the map this one was cloned from
+			// (MergeMaps), replace the element instead of writing through the shared pointer.
+			ym.Items[i] = &YamlKeyValue{Key: ym.Items[i].Key, Value: item.Value}
 			return
 		}
 	}
